@@ -655,8 +655,13 @@ func (stub *stub) Configure(ctx context.Context, req *api.ConfigureRequest) (rpl
 	log.Infof(ctx, "Configuring plugin %s for runtime %s/%s...", stub.Name(),
 		req.RuntimeName, req.RuntimeVersion)
 
-	stub.registrationTimeout = time.Duration(req.RegistrationTimeout * int64(time.Millisecond))
-	stub.requestTimeout = time.Duration(req.RequestTimeout * int64(time.Millisecond))
+	// A runtime which does not send its timeouts leaves ours unchanged.
+	if req.RegistrationTimeout > 0 {
+		stub.registrationTimeout = time.Duration(req.RegistrationTimeout * int64(time.Millisecond))
+	}
+	if req.RequestTimeout > 0 {
+		stub.requestTimeout = time.Duration(req.RequestTimeout * int64(time.Millisecond))
+	}
 
 	if handler := stub.handlers.Configure; handler == nil {
 		events = stub.events
